@@ -356,6 +356,47 @@ def observe(case):
                 for t in ns:
                     reg(t)
                 out = ["OUnit"]
+            elif name == "XBitString":
+                if len(op) > 2 and op[2] == 1:
+                    with warnings.catch_warnings():
+                        warnings.simplefilter("ignore")
+                        bs = ns.split_as_string(op[1])
+                else:
+                    bs = ns.bitmask_as_bitstring(op[1])
+                assert set(bs) <= set("01"), bs
+                out = ["YBits", [c == "1" for c in bs]]
+            elif name == "XLabelMap":
+                d = ns.label_taxon_map(is_case_sensitive=op[1])
+                out = ["YMap", [[pool.index(k), reg(v)] for k, v in d.items()]]
+                # the mapping protocol agrees with items()
+                assert all(d[k] is v for k, v in d.items()) and len(d) == len(out[1])
+            elif name in ("XBipartition", "XBipartitionLabels"):
+                kw = {}
+                if op[2] is not None:
+                    kw["is_rooted"] = op[2]
+                if name == "XBipartition":
+                    if any(i >= len(objs) for i in op[1]):
+                        raise core_skip()
+                    b = ns.taxa_bipartition(taxa=[objs[i] for i in op[1]], **kw)
+                else:
+                    b = ns.taxa_bipartition(labels=[pool[i] for i in op[1]], **kw)
+                out = ["YBip", b._split_bitmask, b._leafset_bitmask, b._tree_leafset_bitmask]
+                assert b.split_bitmask == out[1] and b.leafset_bitmask == out[2]
+            elif name == "XTaxaBitmaskLabels":
+                f = ns.get_taxa_bitmask if (len(op) > 4 and op[4] == 1) else ns.taxa_bitmask
+                out = ["OInt", f(labels=[pool[i] for i in op[1]], is_case_sensitive=op[2], first_match_only=op[3])]
+            elif name == "XGetItem":
+                out = ["OTax", reg(ns[op[1]])]
+            elif name == "XGetSlice":
+                out = ["OTaxa", [reg(t) for t in ns[op[1]:op[2]]]]
+            elif name == "XGetItemLabel":
+                out = ["OTax", reg(ns[pool[op[1]]])]
+            elif name == "XContains":
+                if op[1] >= len(objs):
+                    raise core_skip()
+                out = ["OBool", bool(objs[op[1]] in ns)]
+            elif name == "XLabels":
+                out = ["OGroup1", [pool.index(x) for x in ns.labels()]]
             else:
                 raise RuntimeError("unknown op " + name)
         except core_skip:
@@ -626,6 +667,226 @@ def exhaustive_cases():
         yield {"pool": pool, "free": [2], "cs": True, "ops": [list(o) for o in seq]}
 
 
+# ---- second wave: rendering / read-only operations (Model/C10ModelExt.v) ----
+
+XHEADER = "From DV Require Import Model.PyPrims Model.C10Model Model.C10ModelExt.\nFrom Coq Require Import ZArith. Open Scope Z_scope."
+
+
+def gen_xcase(rng, maxlen):
+    """a base history with the second-wave operations interleaved (operands steered by the sim)"""
+    base = gen_case(rng, maxlen)
+    pool = base["pool"]
+    sim = _Sim(pool, base["free"], base["cs"])
+    ops = []
+
+    def L():
+        if sim.members and rng.random() < 0.7:
+            l = sim.label[rng.choice(sim.members)]
+            vs = [i for i, s in enumerate(pool) if s.lower() == pool[l].lower()]
+            return rng.choice(vs) if rng.random() < 0.4 else l
+        return rng.randrange(len(pool))
+
+    def T():
+        if sim.members and rng.random() < 0.75:
+            return rng.choice(sim.members)
+        return rng.randrange(sim.nobj + 1)
+
+    def mask():
+        live = [sim.idx[t] for t in sim.members]
+        m = 0
+        for i in rng.sample(live, rng.randint(0, len(live))):
+            m |= 1 << i
+        r = rng.random()
+        if r < 0.15:
+            m |= 1 << rng.randint(0, sim.count + 2)
+        elif r < 0.25:
+            m = rng.getrandbits(rng.randint(0, sim.count + 3))
+        return m
+
+    def xop():
+        k = rng.random()
+        CS = rng.choice([None, None, True, False])
+        ROOT = rng.choice([None, None, True, False])
+        n = len(sim.members)
+        if k < 0.18:
+            return ["XBitString", mask(), rng.randrange(2)]
+        if k < 0.34:
+            return ["XLabelMap", CS]
+        if k < 0.50:
+            r = rng.random()
+            if sim.members and r < 0.8:
+                ts = rng.sample(sim.members, rng.randint(0, min(4, n)))
+            else:
+                ts = [T() for _ in range(rng.randint(0, 3))]
+            return ["XBipartition", ts, ROOT]
+        if k < 0.58:
+            return ["XBipartitionLabels", [L() for _ in range(rng.randint(0, 3))], rng.choice([None, None, None, True, False])]
+        if k < 0.72:
+            return ["XTaxaBitmaskLabels", [L() for _ in range(rng.randint(0, 3))], CS, rng.random() < 0.5, rng.randrange(2)]
+        if k < 0.80:
+            return ["XGetItem", rng.randint(-n - 2, n + 1)]
+        if k < 0.88:
+            f = lambda: rng.choice([None, rng.randint(-n - 2, n + 2)])
+            return ["XGetSlice", f(), f()]
+        if k < 0.90:
+            return ["XGetItemLabel", L()]
+        if k < 0.96:
+            return ["XContains", T()]
+        return ["XLabels"]
+
+    for op in base["ops"]:
+        while rng.random() < 0.3:
+            ops.append(xop())
+        ops.append(op)
+        sim.apply(op)
+    while rng.random() < 0.6:
+        ops.append(xop())
+    return {"pool": pool, "free": base["free"], "cs": base["cs"], "ops": ops}
+
+
+def c_xout(o):
+    k = o[0]
+    if k == "YBits":
+        return "(YBits %s)" % clist([cbool(x) for x in o[1]])
+    if k == "YMap":
+        return "(YMap %s)" % clist([cpair(cz(a), cz(b)) for a, b in o[1]])
+    if k == "YBip":
+        return "(YBip %s %s %s)" % (cz(o[1]), cz(o[2]), cz(o[3]))
+    return "(YBase %s)" % c_out(o)
+
+
+def c_xop(op):
+    n = op[0]
+    cso = lambda c: copt(c, cbool)
+    zl = lambda l: clist([cz(x) for x in l])
+    if n == "XBitString":
+        return "(XBitString %s)" % cz(op[1])
+    if n == "XLabelMap":
+        return "(XLabelMap %s)" % cso(op[1])
+    if n in ("XBipartition", "XBipartitionLabels"):
+        return "(%s %s %s)" % (n, zl(op[1]), cso(op[2]))
+    if n == "XTaxaBitmaskLabels":
+        return "(XTaxaBitmaskLabels %s %s %s)" % (zl(op[1]), cso(op[2]), cbool(op[3]))
+    if n in ("XGetItem", "XGetItemLabel", "XContains"):
+        return "(%s %s)" % (n, cz(op[1]))
+    if n == "XGetSlice":
+        return "(XGetSlice %s %s)" % (copt(op[1], cz), copt(op[2], cz))
+    if n == "XLabels":
+        return "XLabels"
+    return "(XBase %s)" % c_op(op)
+
+
+def to_coq_x(case, obs):
+    pool = case["pool"]
+    ops, ob = normalise(case, obs)
+    low = {}
+    pairs = []
+    for i, s in enumerate(pool):
+        l = s.lower()
+        if l in pool:
+            pairs.append((i, pool.index(l)))
+        else:
+            low.setdefault(l, 1000 + i)
+            pairs.append((i, low[l]))
+    lower = clist([cpair(cz(a), cz(b)) for a, b in pairs])
+    free = clist([cpair(cz(i), cz(l)) for i, l in enumerate(case["free"])])
+    exp = clist([cpair(c_xout(o), clist([cpair(cz(t), cz(i)) for t, i in st])) for o, st, *_ in ob])
+    return "(mkXCase %s %s %s %s %s)" % (lower, free, cbool(case["cs"]), clist([c_xop(o) for o in ops]), exp)
+
+
+def oracle_x(case, obs):
+    """the base oracle (the new operations must not disturb anything) + what each new operation names"""
+    v = oracle(case, obs)
+    if v:
+        return v
+    pool = case["pool"]
+    ops, ob = normalise(case, obs)
+    labels = {i: pool[l] for i, l in enumerate(case["free"])}
+    prev_members, prev_idx, cs_ns = [], {}, case["cs"]
+    ever = 0            # number of accession indices handed out so far, seen from outside
+    for step, (op, rec) in enumerate(zip(ops, ob)):
+        out, state, labs, is_mut, is_cs = rec[:5]
+        name = op[0]
+        members = [t for t, _ in state]
+        idx = dict((t, i) for t, i in state)
+        labels.update({t: pool[l] for t, l in zip(members, labs)})
+        if idx:
+            ever = max(ever, max(idx.values()) + 1)
+        if name.startswith("X") and (members != prev_members or idx != prev_idx):
+            return ("%s changed the members or their bits (step %d)" % (name, step), "readonly-op-mutates:" + name)
+
+        def match(l, cs):
+            c = cs_ns if cs is None else cs
+            return [t for t in members if (labels[t] == pool[l] if c else labels[t].lower() == pool[l].lower())]
+
+        if name == "XBitString" and out[0] == "YBits":
+            bits = out[1]
+            for k in range(max(len(bits), op[1].bit_length())):
+                ch = bits[len(bits) - 1 - k] if k < len(bits) else None
+                if ch != bool((op[1] >> k) & 1):
+                    return ("bitmask_as_bitstring(%d): position %d from the right is %s" % (op[1], k, ch), "bitstring-position")
+            named = [t for t in members if idx[t] < len(bits) and bits[len(bits) - 1 - idx[t]]]
+            want = [t for t in members if (op[1] >> idx[t]) & 1]
+            if named != want:
+                return ("bitmask_as_bitstring(%d) marks members %s, the bitmask has %s" % (op[1], named, want), "bitstring-names")
+            if op[1] < (1 << ever) and len(bits) != max(ever, 1) and ever > 0 and len(bits) != ever:
+                return ("bitmask_as_bitstring(%d) has width %d, %d indices were handed out" % (op[1], len(bits), ever), "bitstring-width")
+        if name == "XLabelMap" and out[0] == "YMap":
+            c = cs_ns if op[1] is None else op[1]
+            key = (lambda s: s) if c else (lambda s: s.lower())
+            keys = [key(pool[k]) for k, _ in out[1]]
+            if len(set(keys)) != len(keys):
+                return ("label_taxon_map has two entries for one key (step %d)" % step, "label-map-duplicate-key")
+            for li, t in out[1]:
+                m = match(li, c)
+                if not m or t != m[-1] or labels[t] != pool[li]:
+                    return ("label_taxon_map maps %r to %s; members with that label are %s (step %d)" % (pool[li], t, m, step), "label-map-value")
+            for t in members:
+                if key(labels[t]) not in keys:
+                    return ("label_taxon_map has no entry for the label of member %d (step %d)" % (t, step), "label-map-missing")
+        if name in ("XBipartition", "XBipartitionLabels", "XTaxaBitmaskLabels"):
+            if name == "XBipartition":
+                sel = op[1] if all(t in idx for t in op[1]) else None
+            else:
+                cs = op[2] if name == "XTaxaBitmaskLabels" else None
+                first = op[3] if name == "XTaxaBitmaskLabels" else False
+                sel = []
+                for l in op[1]:
+                    m = match(l, cs)
+                    sel.extend(m[:1] if first else m)
+            if sel is not None:
+                want = 0
+                for t in sel:
+                    want |= 1 << idx[t]
+                if name == "XTaxaBitmaskLabels":
+                    if out != ["OInt", want]:
+                        return ("taxa_bitmask(labels=%s) = %s, the matching members have bits %d" % (op[1], out, want), "taxa-bitmask-labels")
+                elif out[0] == "YBip":
+                    allm = out[3]
+                    if out[2] != want or allm & want != want:
+                        return ("taxa_bipartition leafset bitmask %d (tree %d), selected members have %d" % (out[2], allm, want), "bipartition-leafset")
+                    rooted = op[2] is True
+                    if out[1] != (want if (rooted or not want & 1) else allm & ~want):
+                        return ("taxa_bipartition split bitmask %d for leafset %d, tree %d, rooted %s" % (out[1], want, allm, op[2]), "bipartition-split")
+        if name == "XGetItem":
+            n = len(members)
+            want = ["OTax", members[op[1]]] if -n <= op[1] < n else ["OErr", "IndexErr"]
+            if out != want:
+                return ("ns[%d] = %s, expected %s" % (op[1], out, want), "getitem")
+        if name == "XGetSlice" and out != ["OTaxa", members[op[1]:op[2]]]:
+            return ("ns[%s:%s] = %s" % (op[1], op[2], out), "getslice")
+        if name == "XGetItemLabel" and out != ["OErr", "ValueErr"]:
+            return ("ns[label] = %s" % (out,), "getitem-label")
+        if name == "XContains" and out != ["OBool", op[1] in members]:
+            return ("(%d in ns) = %s, members %s" % (op[1], out, members), "contains")
+        if name == "XLabels" and out != ["OGroup1", [pool.index(labels[t]) for t in members]]:
+            return ("labels() = %s" % (out,), "labels")
+        if name == "Relabel":
+            labels[op[1]] = pool[op[2]]
+        prev_members, prev_idx, cs_ns = members, idx, is_cs
+    return None
+
+
 def search(ctx, budget_s):
     import time
     t0 = time.time()
@@ -657,7 +918,7 @@ def run(tier, seed, replay=None):
         obs = observe(case)
         print("oracle:", oracle(case, obs))
         return 0
-    ok = proof_ok = core.proof_stage(ctx, ["Props/C10.vo"], gen_needed=("BitFns",))
+    ok = proof_ok = core.proof_stage(ctx, ["Model/C10ModelExt.vo", "Props/C10.vo"], gen_needed=("BitFns",))
     if not ok:
         core.broken_proof(ctx, search)
     n = 400 if tier == "quick" else 6000
@@ -695,5 +956,54 @@ def run(tier, seed, replay=None):
     core.corr_stage(ctx, cases, observe_counted, to_coq, HEADER, "case_ok", oracle=oracle,
                     show_fn="case_run", nontrivial=nontrivial, search=search, shard=250,
                     sample_fn=lambda c, o: {"ops": c["ops"][:8], "pool": c["pool"], "last_state": normalise(c, o)[1][-1][1] if normalise(c, o)[1] else None})
+    nx = 300 if tier == "quick" else 4000
+    xcases = [gen_xcase(ctx.rng, 15 if tier == "quick" else 40) for _ in range(nx)]
+
+    def observe_x(case):
+        obs = observe(case)
+        for op, rec in zip(case["ops"], obs):
+            if op[0].startswith("X"):
+                out = rec[0]
+                ctx.count("outcome:%s:%s" % (op[0], out[1] if out[0] == "OErr" else ("skipped" if out[0] == "SKIP" else "ok")))
+                if op[0] == "XLabelMap" and out[0] == "YMap" and len(out[1]) < len(rec[1]):
+                    ctx.count("label_taxon_map with colliding labels")
+                if op[0] == "XBipartition" and out[0] == "YBip" and out[1] != out[2]:
+                    ctx.count("taxa_bipartition normalised to the complement")
+                if op[0] == "XBitString" and out[0] == "YBits" and len(rec[1]) < len(out[1]):
+                    ctx.count("bitstring wider than the member count (vacated or unallocated bits)")
+        return obs
+
+    core.corr_stage(ctx, xcases, observe_x, to_coq_x, XHEADER, "xcase_ok", oracle=oracle_x,
+                    show_fn="xcase_run", nontrivial=nontrivial, search=None, shard=250, label="xops correspondence",
+                    sample_fn=lambda c, o: {"ops": c["ops"][:10], "pool": c["pool"]})
+    # direct tie of the string-based helpers bitprocessing.int_as_bitstring / bit_length (hand-modelled:
+    # bin / lstrip / rjust are outside py2coq's integer subset)
+    from dendropy.utility import bitprocessing
+    bvals = list(range(0, 70)) + [ctx.rng.getrandbits(ctx.rng.randint(1, 80)) for _ in range(130 if tier == "quick" else 1500)]
+    bcases = []
+    for v in bvals:
+        r = ctx.rng.random()
+        ln = None if r < 0.2 else ctx.rng.randint(0, v.bit_length() + 3) if r < 0.8 else 0
+        bcases.append({"n": v, "len": ln})
+
+    def observe_b(c):
+        kw = {} if c["len"] is None else {"length": c["len"]}
+        bs = bitprocessing.int_as_bitstring(c["n"], **kw)
+        assert set(bs) <= set("01")
+        return [[ch == "1" for ch in bs], bitprocessing.bit_length(c["n"]), bitprocessing.bit_length(-c["n"])]
+
+    def oracle_b(c, o):
+        bits, bl, nbl = o
+        n = c["n"]
+        if bl != nbl or bl != n.bit_length():
+            return ("bit_length(%d) = %d, bit_length(%d) = %d" % (n, bl, -n, nbl), "bit-length")
+        if sum(1 << k for k, b in enumerate(reversed(bits)) if b) != n or len(bits) != max(c["len"] if c["len"] is not None else bl, bl, 1):
+            return ("int_as_bitstring(%d, %s) = %s" % (n, c["len"], bits), "int-as-bitstring")
+        return None
+
+    core.corr_stage(ctx, bcases, observe_b,
+                    lambda c, o: "(mkBCase %s %s %s %s %s)" % (cz(c["n"]), copt(c["len"], cz), clist([cbool(x) for x in o[0]]), cz(o[2]), cz(o[1])),
+                    XHEADER, "bcase_ok", oracle=oracle_b, show_fn="bcase_run", nontrivial=lambda c, o: c["n"] > 1,
+                    search=None, shard=400, label="bitstring correspondence")
     return ctx.finish(level="proof",
-                      rule="random op histories (<=25 quick / <=60 thorough ops) drawn by a state-aware generator (operands mostly members / present labels incl. case variants / subsets of live bits; taxa_bitmask followed by bitmask_taxa_list of its result) over label pools with duplicates and case variants, both case settings, several API spellings per op (append/add_taxa, del ns[i]/remove, copy.copy, split_as_newick_string, get_taxa_bitmask); thorough adds every history of length <=3 over a 24-op alphabet and every history of length 4 over an 11-op alphabet; a case is non-trivial when it has >=3 executed ops and reaches a namespace with >=2 members; distinct by full case content")
+                      rule="random op histories (<=25 quick / <=60 thorough ops) drawn by a state-aware generator (operands mostly members / present labels incl. case variants / subsets of live bits; taxa_bitmask followed by bitmask_taxa_list of its result) over label pools with duplicates and case variants, both case settings, several API spellings per op (append/add_taxa, del ns[i]/remove, copy.copy, split_as_newick_string, get_taxa_bitmask); thorough adds every history of length <=3 over a 24-op alphabet and every history of length 4 over an 11-op alphabet; a case is non-trivial when it has >=3 executed ops and reaches a namespace with >=2 members; distinct by full case content; second wave: 300 quick / 4000 thorough such histories with bitmask_as_bitstring, split_as_string, label_taxon_map, taxa_bipartition(taxa=/labels=), taxa_bitmask(labels=), get_taxa_bitmask, ns[i], ns[a:b], ns[label], in, labels() interleaved; 200 quick / 1570 thorough (n, length) pairs for int_as_bitstring / bit_length")
